@@ -350,7 +350,11 @@ def mpmath_mpf(x):
 def worker(chunk):
     out = {"records": [], "calls": 0, "cases": 0}
     for u in chunk:
-        r, c = run_use(u)
+        try:
+            r, c = run_use(u)
+        except Exception as ex:
+            from . import common as _c
+            r, c = [_c.crash_record(f"{u['use']}:{u['syn']}", ex, use=u)], 0
         out["records"] += r
         out["calls"] += c
         out["cases"] += 1
